@@ -326,7 +326,6 @@ func (c *Context) RequiredProduces() []string {
 // if the request is not valid an error will be returned
 func (c *Context) BindValidRequest(request *http.Request, route *MatchedRoute, binder RequestBinder) error {
 	var res []error
-	var requestContentType string
 
 	// check and validate content type, select consumer
 	if runtime.HasBody(request) {
@@ -344,21 +343,21 @@ func (c *Context) BindValidRequest(request *http.Request, route *MatchedRoute, b
 					res = append(res, errors.New(http.StatusInternalServerError, "no consumer registered for %s", ct))
 				} else {
 					route.Consumer = cons
-					requestContentType = ct
 				}
 			}
 		}
 	}
 
-	// check and validate the response format
-	if len(res) == 0 {
-		// if the route does not provide Produces and a default contentType could not be identified
-		// based on a body, typical for GET and DELETE requests, then default contentType to.
-		if len(route.Produces) == 0 && requestContentType == "" {
-			requestContentType = "*/*"
-		}
-
-		if str := NegotiateContentType(request, route.Produces, requestContentType); str == "" {
+	// check and validate the response format.
+	//
+	// If the route provides values for Produces and none of them is acceptable to the client, return an error.
+	// If the route does not specify values for Produces (typical for GET and DELETE requests), treat the request
+	// as valid since the API designer chose not to specify the format for responses.
+	//
+	// The media type of the request body is no offer: the answer is the same whether or not the request carries
+	// a body, and the same as the one given by BindAndValidate.
+	if len(res) == 0 && len(route.Produces) > 0 {
+		if str := NegotiateContentType(request, route.Produces, ""); str == "" {
 			res = append(res, errors.InvalidResponseFormat(request.Header.Get(runtime.HeaderAccept), route.Produces))
 		}
 	}
